@@ -7,7 +7,7 @@ regenerated constants `Facts.MaxColumns`, `Facts.MinColumns`, `Facts.TotalRows`;
 `limits_ok` pins the values the arithmetic below relies on, so an edit of the
 constants in templates.go breaks this file.
 -/
-import XlModel.Lemmas.Ref8
+import XlModel.Lemmas.Ref9
 
 namespace XlModel.Props.C20
 open XlModel XlModel.Ref
@@ -599,5 +599,222 @@ theorem mergecell_reject_witnesses :
     mergeCellRef ['H', '1'] ['I', '2', ':', 'j'] = none ∧
     mergeCellRef ['$', 'b', '$', '2'] ['A', '0', '1'] = some ['A', '1', ':', 'B', '2'] := by
   refine ⟨by decide +kernel, by decide +kernel, by decide +kernel, by decide +kernel⟩
+
+/-! ## The multi-range layer: a reference sequence denotes a set of cells
+
+`XlModel.RefMulti` transcribes `cellInRange`, `isOverlap`, `checkCellInRangeRef`,
+`strings.Fields` on bytes, `flatSqref`, `squashSqref` and the merged-cell scan of
+`mergeCellsParser`. Spec: `refHas` / `sqrefHas` (a cell, or the rectangle spanned by
+two corners in any order; a sequence denotes the union). -/
+
+/-- `cellInRange` is membership in the rectangle as written -/
+theorem in_range_iff (p : Cell) (q : Rect) :
+    cellInRange p q = true ↔ q.1 ≤ p.1 ∧ p.1 ≤ q.2.2.1 ∧ q.2.1 ≤ p.2 ∧ p.2 ≤ q.2.2.2 :=
+  cellInRange_iff p q
+
+/-- `isOverlap` on sorted rectangles: true iff the two rectangles share a cell -/
+theorem overlap_iff_share_cell (a b : Rect) (ha : a.1 ≤ a.2.2.1 ∧ a.2.1 ≤ a.2.2.2)
+    (hb : b.1 ≤ b.2.2.1 ∧ b.2.1 ≤ b.2.2.2) :
+    isOverlap a b = true ↔ ∃ p : Cell, cellInRange p a = true ∧ cellInRange p b = true := by
+  rw [isOverlap_iff]
+  constructor
+  · intro h
+    refine ⟨(max a.1 b.1, max a.2.1 b.2.1), ?_, ?_⟩ <;> rw [cellInRange_iff] <;> simp only [] <;> omega
+  · rintro ⟨p, h1, h2⟩
+    rw [cellInRange_iff] at h1 h2
+    omega
+
+/-- `checkCellInRangeRef` on a strict cell and a strict range: membership in the
+rectangle **as written** (the corners are not sorted: `B2` is not in `C3:A1`); a
+second argument that is not `x:y` is "not in range" without an error. -/
+theorem check_in_range_exact (cell rng : List Char) (c r c1 r1 c2 r2 : Nat)
+    (hc : parseA1 cell = some (c, r)) (hr : parseRangeStrict rng = some (c1, r1, c2, r2)) :
+    checkCellInRangeRef cell rng = .ok (decide (c1 ≤ c ∧ c ≤ c2 ∧ r1 ≤ r ∧ r ≤ r2)) := by
+  obtain ⟨a, b, hsp⟩ := splitColon_of_parseRange hr
+  unfold checkCellInRangeRef
+  simp only [spec_sound cell c r hc, hsp, range_strict_accepted rng c1 r1 c2 r2 hr]
+  congr 1
+  rw [Bool.eq_iff_iff, cellInRange_iff]
+  simp only [decide_eq_true_eq]
+  omega
+
+/-- **denotation of `flatSqref`, full strength**: whenever `flatSqref` accepts a
+sequence, the cells it enumerates are exactly the cells the sequence denotes — every
+cell of every reference, nothing else, whatever the order of the corners, the
+spelling of the references and the white space between them. -/
+theorem flat_denotes (sqref : List Char) (cells : List Cell) (h : flatSqref sqref = .ok cells)
+    (p : Cell) : p ∈ cells ↔ sqrefHas sqref p :=
+  flatRefs_denotes h p
+
+/-- `cells[col]` of the Go map: the enumerated cells with that column -/
+theorem flat_column_bucket (cells : List Cell) (col : Int) (p : Cell) :
+    p ∈ colOf cells col ↔ p ∈ cells ∧ p.1 = col := by
+  simp [colOf, List.mem_filter]
+
+/-- every enumerated cell lies inside the grid -/
+theorem flat_in_grid (sqref : List Char) (cells : List Cell) (h : flatSqref sqref = .ok cells)
+    (p : Cell) (hp : p ∈ cells) :
+    1 ≤ p.1 ∧ p.1 ≤ (Facts.MaxColumns : Int) ∧ 1 ≤ p.2 ∧ p.2 ≤ (Facts.TotalRows : Int) := by
+  obtain ⟨ref, _, hh⟩ := (flat_denotes sqref cells h p).mp hp
+  rcases hh with ⟨c, r, hq, rfl⟩ | ⟨c1, r1, c2, r2, hq, h1, h2, h3, h4⟩
+  · obtain ⟨_, _, _, _, _, _, _, _, _, _, _, _, a1, a2, _, a3, a4⟩ := shape_of_parseA1 hq
+    simp only []; omega
+  · obtain ⟨A, B, _, hA, hB⟩ := (parseRangeStrict_iff ref c1 r1 c2 r2).mp hq
+    obtain ⟨_, _, _, _, _, _, _, _, _, _, _, _, a1, a2, _, a3, a4⟩ := hA
+    obtain ⟨_, _, _, _, _, _, _, _, _, _, _, _, b1, b2, _, b3, b4⟩ := hB
+    omega
+
+/-- **exact acceptance of `flatSqref`** (as transcribed): it accepts a sequence iff
+every white-space separated reference is a strict A1 cell, a strict `cell:cell`
+range — or has three or more `:`-separated parts, in which case it is silently
+skipped (the `switch len(rng)` has no default case). -/
+theorem flat_accepts_iff (sqref : List Char) :
+    (∃ cells, flatSqref sqref = .ok cells) ↔
+      ∀ ref ∈ fields sqref, (∃ c r, parseA1 ref = some (c, r)) ∨
+        (∃ q, parseRangeStrict ref = some q) ∨ 3 ≤ (splitColon ref).length := by
+  unfold flatSqref
+  rw [flatRefs_ok_iff]
+  constructor
+  · intro h ref hr; exact (flatRef_ok_iff ref).mp (h ref hr)
+  · intro h ref hr; exact (flatRef_ok_iff ref).mpr (h ref hr)
+
+/-- what is true (`…_partial`: the missing hypothesis is "no reference of the sequence
+has more than one colon"): then `flatSqref` accepts iff every reference is a strict
+cell or a strict range. -/
+theorem flat_strict_partial (sqref : List Char)
+    (hno : ∀ ref ∈ fields sqref, (splitColon ref).length ≤ 2) :
+    (∃ cells, flatSqref sqref = .ok cells) ↔
+      ∀ ref ∈ fields sqref, (∃ c r, parseA1 ref = some (c, r)) ∨ (∃ q, parseRangeStrict ref = some q) := by
+  rw [flat_accepts_iff]
+  constructor
+  · intro h ref hr
+    rcases h ref hr with a | a | a
+    · exact Or.inl a
+    · exact Or.inr a
+    · have := hno ref hr; omega
+  · intro h ref hr
+    rcases h ref hr with a | a
+    · exact Or.inl a
+    · exact Or.inr (Or.inl a)
+
+/-- **finding (open)**: `flatSqref` does not reject a reference with two or more
+colons, it ignores it: `flatSqref("A1:B2:C3")` and `flatSqref("x:y:z")` return no
+cells and no error (while `"junk"` is an error). Through the public API:
+`DeleteDataValidation("Sheet1", "x:y:z")` returns nil and deletes nothing. Oracle
+signature `sqref:accept-non-ref:skipped-multi-colon`. -/
+theorem finding_flat_skips_multi_colon :
+    flatSqref ['A', '1', ':', 'B', '2', ':', 'C', '3'] = .ok [] ∧
+    flatSqref ['x', ':', 'y', ':', 'z'] = .ok [] ∧
+    flatSqref ['A', '1', ' ', 'x', ':', 'y', ':', 'z'] = .ok [(1, 1)] ∧
+    (∃ e, flatSqref ['j', 'u', 'n', 'k'] = .error e) := by
+  refine ⟨by decide +kernel, by decide +kernel, by decide +kernel, ⟨.cellName, by decide +kernel⟩⟩
+
+/-- **`squashSqref` preserves the denotation** (coordinate level): for the cells of
+one column in strictly ascending row order — what `flatSqref` yields per column for
+ascending, duplicate-free areas — the emitted single cells and spans denote exactly
+the input cells. (For non-ascending or duplicated input it does not: that is C18's
+`dvdel:areas-not-ascending` / `dvdel:overlapping-areas`.) -/
+theorem squash_denotes (c : Int) (cells : List Cell) (hcol : ∀ x ∈ cells, x.1 = c)
+    (hasc : List.Pairwise (fun a b : Cell => a.2 < b.2) cells) (p : Cell) :
+    (∃ piece ∈ squashPieces cells, pieceHas piece p) ↔ p ∈ cells :=
+  squashPieces_denotes c cells hcol hasc p
+
+/-- rendering of a piece inside the grid denotes what the piece denotes: a single
+cell renders to its canonical name, a one-column span to `top:bottom` -/
+theorem render_piece_denotes (c r1 r2 : Nat) (hc : 1 ≤ c ∧ c ≤ Facts.MaxColumns)
+    (h1 : 1 ≤ r1 ∧ r1 ≤ Facts.TotalRows) (h2 : 1 ≤ r2 ∧ r2 ≤ Facts.TotalRows) (hle : r1 ≤ r2) (p : Cell) :
+    (refHas (renderPiece (.one ((c : Int), (r1 : Int)))) p ↔ pieceHas (.one ((c : Int), (r1 : Int))) p) ∧
+    (refHas (renderPiece (.span ((c : Int), (r1 : Int)) ((c : Int), (r2 : Int)))) p ↔
+      pieceHas (.span ((c : Int), (r1 : Int)) ((c : Int), (r2 : Int))) p) := by
+  constructor
+  · have henc := cell_encode_eq c r1 false hc.1 hc.2 h1.1 h1.2
+    have hsh := cell_encode_shape c r1 false hc.1 hc.2 h1.1 h1.2
+    simp only [renderPiece, henc, pieceHas]
+    have hp := parseA1_of_shape hsh
+    constructor
+    · rintro (⟨c', r', hp', rfl⟩ | ⟨_, _, _, _, hq, _⟩)
+      · rw [hp] at hp'; cases hp'; rfl
+      · obtain ⟨a, b, hab⟩ := splitColon_of_parseRange hq
+        rw [splitColon_of_parseA1 hp] at hab; cases hab
+    · intro e; exact Or.inl ⟨c, r1, hp, e⟩
+  · obtain ⟨ref, henc, hdec⟩ := range_encode_decode c r1 c r2 false hc h1 hc h2
+    simp only [renderPiece, henc, pieceHas]
+    have hq := (range_decode_accepts_iff ref c r1 c r2).mp hdec
+    constructor
+    · rintro (⟨c', r', hp', _⟩ | ⟨a1, b1, a2, b2, hq', g1, g2, g3, g4⟩)
+      · obtain ⟨a, b, hab⟩ := splitColon_of_parseRange hq
+        rw [splitColon_of_parseA1 hp'] at hab; cases hab
+      · rw [hq] at hq'; cases hq'
+        exact ⟨by omega, trivial, by omega, by omega⟩
+    · rintro ⟨g1, _, g3, g4⟩
+      exact Or.inr ⟨c, r1, c, r2, hq, by omega, by omega, by omega, by omega⟩
+
+/-! ## `mergeCellsParser` on a sheet with merged cells -/
+
+/-- **spelling independence of the redirect, full strength**: whatever the merged-cell
+list of the worksheet (well-formed or not), two accepted spellings of one cell are
+redirected to the same anchor (or fail with the same error) — every API that goes
+through `mergeCellsParser` treats them as the same cell on sheets with merged cells too. -/
+theorem anchor_spelling_independent (ms : List (List Char)) (s t : List Char) (ci ri : Int)
+    (hs : cellNameToCoordinates s = .ok (ci, ri)) (ht : cellNameToCoordinates t = .ok (ci, ri)) :
+    mergeParseWith ms s = mergeParseWith ms t := by
+  unfold mergeParseWith
+  rw [upper_same_cell s ci ri hs, upper_same_cell t ci ri ht]
+
+/-- the redirect accepts only strict A1 references, and without merged cells it is
+the normalisation of `RefApi.mergeParse` -/
+theorem anchor_accepts_only_a1 (ms : List (List Char)) (s a : List Char)
+    (h : mergeParseWith ms s = .ok a) : ∃ c r, parseA1 s = some (c, r) := by
+  unfold mergeParseWith at h
+  split at h
+  · cases h
+  · rename_i c r hd
+    obtain ⟨cn, rn, hp, _, _⟩ := rejects_non_a1 s c r ((api_strict s c r).mp hd)
+    exact ⟨cn, rn, hp⟩
+
+theorem anchor_no_merges (s a : List Char) :
+    mergeParseWith [] s = .ok a ↔ mergeParse s = some a := by
+  unfold mergeParseWith mergeParse apiRef getterRef setterRef
+  cases hd : cellNameToCoordinates (s.map toUpper) with
+  | error e => simp
+  | ok p =>
+    obtain ⟨c, r⟩ := p
+    cases hc : coordinatesToCellName c r false with
+    | error e => simp [hc]
+    | ok canon => simp [hc, redirectScan]
+
+/-- **exact result of the redirect**: the canonical name when no merged-cell reference
+contains the cell, otherwise the first `:`-part, as stored, of the FIRST reference
+(in list order) whose sorted rectangle contains the cell. -/
+theorem anchor_exact (ms : List (List Char)) (s a : List Char) (ci ri : Int)
+    (hs : cellNameToCoordinates s = .ok (ci, ri)) (h : mergeParseWith ms s = .ok a) :
+    (coordinatesToCellName ci ri false = .ok a ∧ ∀ ref ∈ ms, ¬ MergeHit (ci, ri) ref) ∨
+    ∃ pre ref post, ms = pre ++ ref :: post ∧ (∀ x ∈ pre, ¬ MergeHit (ci, ri) x) ∧
+      MergeHit (ci, ri) ref ∧ a = (splitColon ref).headD [] := by
+  unfold mergeParseWith at h
+  rw [upper_same_cell s ci ri hs] at h
+  obtain ⟨_, _, _, _, canon, hcanon, _⟩ := cell_decode_encode s ci ri hs
+  simp only [hcanon] at h
+  rcases redirectScan_ok h with ⟨h1, h2⟩ | h2
+  · exact Or.inl ⟨by rw [h1]; exact hcanon, h2⟩
+  · exact Or.inr h2
+
+/-- on a well-formed worksheet (every `<mergeCell ref>` a strict range, as `MergeCell`
+writes them) a hit redirects to the first corner of the range, spelled as stored,
+which is an accepted cell name denoting that corner; the cell lies in the rectangle. -/
+theorem anchor_is_first_corner (p : Cell) (ref : List Char) (c1 r1 c2 r2 : Nat)
+    (hq : parseRangeStrict ref = some (c1, r1, c2, r2)) (hit : MergeHit p ref) :
+    cellNameToCoordinates ((splitColon ref).headD []) = .ok ((c1 : Int), (r1 : Int)) ∧
+    min (c1 : Int) c2 ≤ p.1 ∧ p.1 ≤ max (c1 : Int) c2 ∧ min (r1 : Int) r2 ≤ p.2 ∧ p.2 ≤ max (r1 : Int) r2 := by
+  have hs := (parseRangeStrict_iff ref c1 r1 c2 r2).mp hq
+  have hcount := countColon_strict hs
+  obtain ⟨_, q, hdec, hin⟩ := hit
+  simp only [hcount, bne_self_eq_false, Bool.false_eq_true, if_false] at hdec
+  rw [range_strict_accepted ref c1 r1 c2 r2 hq] at hdec
+  cases hdec
+  rw [sort_minmax, cellInRange_iff] at hin
+  obtain ⟨A, B, rfl, hA, hB⟩ := hs
+  rw [splitColon_two A B (shape_nocolon hA) (shape_nocolon hB)]
+  exact ⟨decode_of_shape hA, hin⟩
 
 end XlModel.Props.C20
